@@ -67,6 +67,12 @@ func (c *c08) Cases(tier string, seed int64) []core.Case {
 	inv386 := core.MkCase("386:inverse", c08Params{Op: "inverse"})
 	inv386.Arch386 = true
 	cs = append(cs, inv386)
+	ps386 := core.MkCase("386:poly-structured", c08Params{Op: "poly-structured"})
+	ps386.Arch386 = true
+	cs = append(cs, ps386)
+	pr386 := core.MkCase("386:poly-random", c08Params{Op: "poly-random", N: 100000, Seed: seed*1000 + 386})
+	pr386.Arch386 = true
+	cs = append(cs, pr386)
 	n := 250000
 	k := 8
 	if tier == "thorough" {
